@@ -40,7 +40,9 @@ OneVal2(c, e) ==
   LET init == [q \in 1..c.nq |-> IF \E k \in 1..Len(c.inq) : c.inq[k] = q - 1 /\ str[n + 1 - k] = 1 THEN {0} ELSE {}]
       fin  == Run(c.gates, init, {0})
       rd   == [k \in 1..Len(c.outq) |-> fin[c.outq[k] + 1] # {}]
-      got  == c.dec[PatOf(rd) + 1]
+      \* wide return types: the decode table is not logged (2^w entries); the reading is decoded with Codec
+      \* (decode_output itself is covered exhaustively per type by C09)
+      got  == IF Len(c.dec) = 0 THEN Dec(c.def.rdesc, rd) ELSE c.dec[PatOf(rd) + 1]
       x    == RunRow(c.def, c.fns, r, c.params)
   IN IF x.st = "unmod" THEN <<"unmod", r>>
      ELSE IF x.st = "undef" THEN <<"skip", r>>
@@ -73,6 +75,7 @@ Verdict(c) ==
                            <<"fail", (CHOOSE p \in bad : p[2] = r0)[1], r0, Cardinality(bad)>>
      ELSE IF Len(c.enc) # Cardinality(U) THEN <<"fail", "not-all-valuations-logged", Len(c.enc), Cardinality(U)>>
      ELSE \* decode_counts agrees with per-key decode_output
+          IF Len(c.dec) = 0 THEN <<"ok", "", nok, Len(c.enc)>> ELSE
           LET vals == {c.dec[c.cin[k][1] + 1] : k \in 1..Len(c.cin)}
               Tot(v) == LET RECURSIVE F(_) F(k) == IF k > Len(c.cin) THEN 0
                                                     ELSE (IF c.dec[c.cin[k][1] + 1] = v THEN c.cin[k][2] ELSE 0) + F(k + 1)
